@@ -268,7 +268,9 @@ fn register_alloc(me: usize, hid: u64, off: u32, cap: u32, boff: u32, kind: HKin
         hb_check_range(&mut c, me, off, cap, "hand-out");
         // from now on the bytes belong to `me`
         for b in off..off + cap {
-            c.released_by[b as usize] = (0, 0);
+            if let Some(x) = c.released_by.get_mut(b as usize) {
+                *x = (0, 0);
+            }
         }
     }
     c.live.push(LiveRange { owner: me, hid, off, cap, kind, recycled, expected });
@@ -281,7 +283,9 @@ fn unregister(me: usize, hid: u64, releasing: bool) {
         if releasing {
             let ep = c.vc[me].0[me];
             for b in l.off..l.off + l.cap {
-                c.released_by[b as usize] = (me as u8 + 1, ep);
+                if let Some(x) = c.released_by.get_mut(b as usize) {
+                    *x = (me as u8 + 1, ep);
+                }
             }
         }
     }
